@@ -98,7 +98,7 @@ theorem elifBOf_c (cx : Cx) (fuel : Nat) (env : Src.Env) (y : ESyn) {body : M (L
 theorem patchNone_ite_true (e : Nat) (l : List LItem) : patchNone e (if True then l else []) = patchNone e l := by simp
 
 /-- **`IfBlock.collect` as a piece.** -/
-theorem ite_piece (cx : Cx) (fuel : Nat) (env : Src.Env) (he : PlainEnv env) (neg : Bool) (hdrs : List Hdr) (hasElse : Bool)
+theorem ite_piece (cx : Cx) (fuel : Nat) (env : Src.Env) (he : EnvOK cx env) (neg : Bool) (hdrs : List Hdr) (hasElse : Bool)
     (bodyS elsS : Stmts) (ys : List ESyn) (hh : HdrsOK hdrs)
     {body els : M (List LItem)} {elifsA : M (List ElifA)} {elifsB : List ElifA → M (List Blk)}
     (hm : PM cx body (fun k b => Src.trStmts fuel [] env (toSrcStmts bodyS) k b) env)
